@@ -4,6 +4,7 @@ import (
 	"bytes"
 	"compress/gzip"
 	"context"
+	"errors"
 	"io"
 	"io/ioutil"
 	"sync"
@@ -63,6 +64,10 @@ type PubSub struct {
 // NewPubSub creates a route that writes metrics to a Google PubSub topic
 // We will automatically run the route and the destination
 func NewPubSub(key string, matcher matcher.Matcher, project, topic, format, codec string, bufSize, flushMaxSize, flushMaxWait int, blocking bool) (Route, error) {
+	wait := time.Duration(flushMaxWait) * time.Millisecond
+	if bufSize < 0 || flushMaxSize < 0 || wait <= 0 {
+		return nil, errors.New("bufSize and flushMaxSize must be >= 0 and flushMaxWait must be > 0")
+	}
 	r := &PubSub{
 		baseRoute: baseRoute{sync.Mutex{}, atomic.Value{}, key},
 		project:   project,
@@ -74,7 +79,7 @@ func NewPubSub(key string, matcher matcher.Matcher, project, topic, format, code
 
 		bufSize:      bufSize,
 		flushMaxSize: flushMaxSize,
-		flushMaxWait: time.Duration(flushMaxWait) * time.Millisecond,
+		flushMaxWait: wait,
 
 		numOut:            stats.Counter("dest=" + topic + ".unit=Metric.direction=out"),
 		numPubSubMessages: stats.Counter("dest=" + topic + "unit.Metric.what=pubsubMessagesPublished"),
